@@ -14,13 +14,24 @@ TraceInit == l = 0 /\ c = <<>> /\ res = FALSE /\ done = FALSE
 TraceNext == l < Len(Trace) /\ l' = l + 1 /\ UNCHANGED vars
 TraceSpec == TraceInit /\ [][TraceNext]_<<l, vars>>
 
-\* the statement on the observation, with the pin equality taken from the token table and,
+\* the statement on one observed connection, with the pin equality taken from the token table and,
 \* independently, from the harness's comparison of the real texts
-RecOK(r) == PinOK(r.c, r.success) /\ (Configured(r.c) => (r.success => r.eqfold))
+ConnOK(x, o) == PinOK(x, o.success) /\ (Configured(x) => (o.success => o.eqfold))
 
-Verdicts == l >= 1 => Monitor(RecOK(Trace[l]), [l |-> l])
+\* a sequence record holds one observation per connection (r.steps); connection i is judged on
+\* StepCase(c, i) alone: history independence
+Verdicts ==
+    l >= 1 => LET r == Trace[l] IN
+              IF IsSeq(r.c) THEN \A i \in 1..Len(r.c.steps) : Monitor(ConnOK(StepCase(r.c, i), r.steps[i]), [l |-> l, step |-> i])
+              ELSE Monitor(ConnOK(r.c, r), [l |-> l, step |-> 0])
 \* the token table and the real texts must agree (otherwise the harness is wrong)
-Harness  == l >= 1 => ((Trace[l].eqfold = Match(Trace[l].c)) \/ Emit("HARNESS", [l |-> l]))
-Drift    == l >= 1 => ((Trace[l].success = ConnectImpl(Trace[l].c)) \/ Emit("DRIFT", [l |-> l]))
+Harness ==
+    l >= 1 => LET r == Trace[l] IN
+              IF IsSeq(r.c) THEN \A i \in 1..Len(r.c.steps) : ((r.steps[i].eqfold = Match(StepCase(r.c, i))) \/ Emit("HARNESS", [l |-> l, step |-> i]))
+              ELSE (r.eqfold = Match(r.c)) \/ Emit("HARNESS", [l |-> l, step |-> 0])
+Drift ==
+    l >= 1 => LET r == Trace[l] IN
+              IF IsSeq(r.c) THEN \A i \in 1..Len(r.c.steps) : ((r.steps[i].success = ConnectImpl(StepCase(r.c, i))) \/ Emit("DRIFT", [l |-> l, step |-> i]))
+              ELSE (r.success = ConnectImpl(r.c)) \/ Emit("DRIFT", [l |-> l, step |-> 0])
 Accepted == TLCGet("stats").diameter - 1 = Len(Trace)
 =============================================================================
